@@ -45,6 +45,7 @@ type verifRecorder struct {
 	lastBatch                  uint32
 	lastErr                    error
 	lastEntry                  *base.SentinelEntry
+	lastRt                     uint64
 }
 
 func (r *verifRecorder) Order() uint32 { return 9000 }
@@ -59,6 +60,7 @@ func (r *verifRecorder) OnEntryBlocked(ctx *base.EntryContext, b *base.BlockErro
 func (r *verifRecorder) OnCompleted(ctx *base.EntryContext) {
 	r.completed++
 	r.lastRes, r.lastBatch, r.lastErr, r.lastEntry = ctx.Resource.Name(), ctx.Input.BatchCount, ctx.Err(), ctx.Entry()
+	r.lastRt = ctx.Rt()
 }
 
 type verifLive struct {
@@ -69,6 +71,7 @@ type verifLive struct {
 	batch     uint32
 	exited    bool
 	err       error
+	start     uint64 // clock at Entry
 }
 
 func VerifC01() {
@@ -91,11 +94,21 @@ func VerifC01() {
 	var es []*verifLive
 	var reqSum, passSum, blockSum, compSum, errSum, gauge [2]int64
 	var inPass, inBlock, inComp, inErr, inGauge int64
+	var rtSum [2]int64
+	var inRt int64
+	now := uint64(2000000000000)
 	nErr := 0
 	K, modes := rt.Param("K"), rt.Param("MODES")
 	for k := 0; k < K; k++ {
+		if rt.Param("TIME") != 0 {
+			now += rt.U64n("dt", 6) // virtual time advances by 0..63 ms before every operation (all inside one statistic bucket)
+			rt.SetClockMs(now)
+		}
 		op := 0
-		if len(es) > 0 {
+		pre := k < 2*rt.Param("PRE") // forced prefix: an entry whose prepare slot panics, then its exit (recycles the context)
+		if pre {
+			op = k % 2
+		} else if len(es) > 0 {
 			op = rt.Choice(3)
 		}
 		switch op {
@@ -104,7 +117,11 @@ func VerifC01() {
 			tt := rt.Choice(2)
 			inbound := tt == 0
 			b := rt.U32n("batch", 10)
-			rule.mode = rt.Choice(modes)
+			if pre {
+				rule.mode = 4
+			} else {
+				rule.mode = rt.Choice(modes)
+			}
 			prep.boom = false
 			if rule.mode == 4 { // the prepare phase panics (the rule phase is never reached)
 				prep.boom, prepPanics = true, true
@@ -118,7 +135,7 @@ func VerifC01() {
 			if e != nil && prep.boom {
 				// pinned upstream behaviour (TestSlotChain_Entry_With_Panic): nothing is recorded
 				rt.Assert(rec.passed == p0 && rec.blocked == b0, "after a prepare-slot panic the statistic slots are not told an outcome")
-				es = append(es, &verifLive{e: e, res: r, batch: b, inbound: inbound, uncounted: true, err: e.Context().Err()})
+				es = append(es, &verifLive{e: e, res: r, batch: b, inbound: inbound, uncounted: true, err: e.Context().Err(), start: now})
 			} else if e != nil {
 				rt.Assert(rec.passed == p0+1 && rec.blocked == b0 && rec.lastRes == names[r] && rec.lastBatch == b, "a passed entry is recorded as passed exactly once, on its resource with its batch")
 				passSum[r] += int64(b)
@@ -127,7 +144,7 @@ func VerifC01() {
 					inPass += int64(b)
 					inGauge++
 				}
-				l := &verifLive{e: e, res: r, batch: b, inbound: inbound}
+				l := &verifLive{e: e, res: r, batch: b, inbound: inbound, start: now}
 				if rule.mode == 3 {
 					l.err = e.Context().Err() // the internal panic is recorded as the entry's error (upstream design)
 					rt.Assert(l.err != nil, "an internal panic is recorded on the entry")
@@ -164,6 +181,11 @@ func VerifC01() {
 				rt.Reach("c01.exit")
 				rt.Assert(rec.completed == c0+1 && rec.lastEntry == l.e && rec.lastRes == names[l.res] && rec.lastBatch == l.batch, "the first Exit of a passed entry completes exactly that entry")
 				rt.Assert(rec.lastErr == l.err, "the completion carries the entry's own error")
+				rt.Assert(rec.lastRt == now-l.start, "the completion carries the entry's own response time")
+				rtSum[l.res] += int64(now - l.start)
+				if l.inbound {
+					inRt += int64(now - l.start)
+				}
 				l.exited = true
 				compSum[l.res] += int64(l.batch)
 				gauge[l.res]--
@@ -202,11 +224,13 @@ func VerifC01() {
 			rt.Assert(n.GetSum(base.MetricEventPass) == passSum[r] && n.GetSum(base.MetricEventBlock) == blockSum[r], "passed and blocked tokens are counted on the entered resource")
 			rt.AssertExcept(n.GetSum(base.MetricEventPass)+n.GetSum(base.MetricEventBlock) == reqSum[r], "passed + blocked tokens equal the tokens requested", "D23", prepPanics)
 			rt.Assert(n.GetSum(base.MetricEventComplete) == compSum[r] && n.GetSum(base.MetricEventError) == errSum[r], "completions and errors are counted once, on the entered resource")
+			rt.Assert(n.GetSum(base.MetricEventRt) == rtSum[r], "the response time of every completed entry is added once to its resource")
 			rt.Assert(int64(n.CurrentConcurrency()) == gauge[r], "reported concurrency equals the passed entries not yet exited (never negative, zero when none is in flight)")
 		}
 		in := stat.InboundNode()
 		rt.Assert(in.GetSum(base.MetricEventPass) == inPass && in.GetSum(base.MetricEventBlock) == inBlock && in.GetSum(base.MetricEventComplete) == inComp && in.GetSum(base.MetricEventError) == inErr,
 			"the inbound total counts exactly the inbound traffic")
+		rt.Assert(in.GetSum(base.MetricEventRt) == inRt, "the inbound total adds the response time of every completed inbound entry once")
 		rt.Assert(int64(in.CurrentConcurrency()) == inGauge, "inbound concurrency equals the inbound entries in flight")
 		for _, l := range es {
 			if !l.exited {
